@@ -23,6 +23,13 @@ NOTES = ("Run ./check <ID> quick|thorough from /verif.  Exit 0/1/2 = held / VIOL
          "known_findings.json lists repaired defects (status fixed, regression inputs) and open findings.")
 NOT_APPLICABLE = {}
 CHECKS = {
+    "C13": dict(
+        level="exploration",
+        technique="exhaustive small-DAG x timestamp-ordering enumeration against a brute-force ancestor-set model; Hypothesis DAGs; C git differential (merge-base, rev-list); commit-graph metamorphic relation",
+        text="On every DAG shape with <=4 commits (quick; <=5 thorough, sampled 6) under every relative order of commit timestamps incl. ties, and on generated DAGs up to 40/300 commits with criss-cross/octopus/multi-root shapes and skewed clocks, find_merge_base / find_octopus_base / can_fast_forward / independent return exactly the maximal common ancestors / ancestry relation, and Repo.get_walker yields exactly the reachable set once each, respects topo order, reverse, max_entries, and (on monotone clocks) exact exclude/since/until sets; answers agree with git merge-base / rev-list and do not change when a commit-graph (dulwich- or git-written) is present.",
+        design_ref="DESIGN.md §4 C13",
+        note="trusted: the 40-line bitmask model (self-tested; corroborated by git 2.39.5 in every run); exclusion/since exactness only demanded on monotone clocks; topo order checked as a constraint; pure-Python dulwich pinned; not covered: walker paths/follow, grafts/shallow, complete n=6",
+    ),
     "C10": dict(
         level="exploration",
         engine="vf+interpose",
